@@ -23,7 +23,7 @@ for meta_path in sorted(glob.glob(os.path.join(VERIF, "seeded", "*", "meta.json"
             if not os.path.exists(rp):
                 continue
             r = json.load(open(rp))
-            if "input" not in r or os.path.getsize(rp) > MAX_BYTES:
+            if "input" not in r or len(json.dumps(r["input"])) > MAX_BYTES:
                 continue
             d = os.path.join(VERIF, "corpus_min", prop)
             os.makedirs(d, exist_ok=True)
